@@ -131,7 +131,12 @@ pub fn gen_bsetter(rng: &mut Rng, vmax: u8) -> BSetter {
 }
 
 pub fn gen_color(rng: &mut Rng, raster_safe: bool) -> ColorSpec {
-    const NAMED: [&str; 6] = ["#ff0000", "#00ff0080", "#123", "#ABCDEF", "#000000", "#fefefe"];
+    // valid SVG paints in every spelling: opaque and see-through, hex of all four lengths,
+    // functional notation, keywords
+    const NAMED: [&str; 16] = [
+        "#ff0000", "#00ff0080", "#123", "#ABCDEF", "#000000", "#fefefe", "none", "transparent", "#0008", "#fff0", "rgba(10,20,30,0.25)", "rgba(255,255,255,0)",
+        "rgb(1,2,3)", "red", "white", "#12345600",
+    ];
     // caller-supplied text is written verbatim: whitespace runs, tabs, line breaks, non-ASCII
     const ODD: [&str; 9] = [
         "red",
@@ -222,5 +227,18 @@ pub fn gen_rsetters(rng: &mut Rng, is_img: bool, raster_safe: bool, allow_panick
         2 => rng.range(3, 5),
         _ => rng.range(6, 10),
     };
-    (0..n).map(|_| gen_rsetter(rng, is_img, raster_safe, allow_panicky)).collect()
+    let mut v: Vec<RSetter> = (0..n).map(|_| gen_rsetter(rng, is_img, raster_safe, allow_panicky)).collect();
+    // now and then a renderer with very many shape layers (tables and vectors with a fixed
+    // number of slots overflow somewhere between 16 and a few hundred entries)
+    if rng.chance(1, 70) {
+        let layers = match rng.weighted(&[5, 3, 1]) {
+            0 => rng.range(17, 40),
+            1 => rng.range(60, 130),
+            _ => rng.range(250, 1100),
+        };
+        for _ in 0..layers {
+            v.push(if rng.chance(1, 2) { RSetter::Shape(gen_shape(rng, false)) } else { RSetter::ShapeColor(gen_shape(rng, false), gen_color(rng, raster_safe)) });
+        }
+    }
+    v
 }
